@@ -60,9 +60,18 @@ pub open spec fn decls_from(ks: Seq<ScopeOrDeclId>, k: int) -> Seq<ScopeOrDeclId
     else if ks[k] is Decl { seq![ks[k]] + decls_from(ks, k + 1) }
     else { decls_from(ks, k + 1) }
 }
-/// visit_child_scope
+/// the Decl entries of ks[0..k), last first (`for child in scope.get_children().iter().rev()` of the repaired visit_child_scope)
+pub open spec fn decls_rev(ks: Seq<ScopeOrDeclId>, k: int) -> Seq<ScopeOrDeclId>
+    decreases k
+{
+    if k <= 0 || k > ks.len() { Seq::empty() }
+    else if ks[k - 1] is Decl { seq![ks[k - 1]] + decls_rev(ks, k - 1) }
+    else { decls_rev(ks, k - 1) }
+}
+/// visit_child_scope (dup_fixed(): the names of one local / assignment statement are walked last first)
 pub open spec fn m_expose(ss: Seq<LuaScope>, i: int) -> Seq<ScopeOrDeclId> {
-    if stmt_kind(kd(ss, i)) { decls_from(kids(ss, i), 0) } else { Seq::empty() }
+    if dup_fixed() && kd(ss, i) == LuaScopeKind::LocalOrAssignStat { decls_rev(kids(ss, i), kids(ss, i).len() as int) }
+    else if stmt_kind(kd(ss, i)) { decls_from(kids(ss, i), 0) } else { Seq::empty() }
 }
 /// one step of the reverse walk of search_scope_children
 pub open spec fn m_child(ss: Seq<LuaScope>, c: ScopeOrDeclId) -> Seq<ScopeOrDeclId> {
@@ -80,6 +89,14 @@ pub open spec fn m_walk(ss: Seq<LuaScope>, ks: Seq<ScopeOrDeclId>, j: int) -> Se
 /// search_scope_children
 pub open spec fn m_search(ss: Seq<LuaScope>, i: int, p: int) -> Seq<ScopeOrDeclId> {
     m_walk(ss, kids(ss, i), m_cut(ss, kids(ss, i), p, kids(ss, i).len() as int))
+}
+/// p is inside the BODY of scope s: its last child, a scope (function body / loop body block); is_in_loop_body of the repaired code
+pub open spec fn in_body(ss: Seq<LuaScope>, s: int, p: int) -> bool {
+    kids(ss, s).len() > 0 && (kids(ss, s).last() matches ScopeOrDeclId::Scope(sid) && (sid.id as int) < ss.len() && rng(ss, sid.id as int, p))
+}
+/// the search of a scope's own children in the non-entry visit (hdr_trav(): a ForRange scope is searched only from its body)
+pub open spec fn lsearch(ss: Seq<LuaScope>, i: int, p: int) -> Seq<ScopeOrDeclId> {
+    if hdr_trav() && kd(ss, i) == LuaScopeKind::ForRange && !in_body(ss, i, p) { Seq::empty() } else { m_search(ss, i, p) }
 }
 pub open spec fn par_ok(ss: Seq<LuaScope>, i: int) -> bool { 0 <= par(ss, i) < i }
 /// first child of a scope, as a scope index (-1: no children / first child is a declaration / id out of range)
@@ -111,9 +128,9 @@ pub open spec fn m_visit(ss: Seq<LuaScope>, i: int, p: int, entry: bool) -> Seq<
         if kd(ss, i) == LuaScopeKind::LocalOrAssignStat { m_up(ss, i, st(ss, i)) }
         else if kd(ss, i) == LuaScopeKind::Repeat {
             (if first_scope(ss, i) >= 0 { m_search(ss, first_scope(ss, i), p) } else { Seq::empty() })
-                + m_search(ss, i, p) + m_up(ss, i, p)
+                + lsearch(ss, i, p) + m_up(ss, i, p)
         }
-        else { m_search(ss, i, p) + m_up(ss, i, p) }
+        else { lsearch(ss, i, p) + m_up(ss, i, p) }
     }
 }
 
@@ -174,6 +191,17 @@ pub proof fn lemma_child_step<F: DeclVisitor>(v: F::S, ks: Seq<ScopeOrDeclId>, k
         lemma_run_one::<F>(v, ks[k]);
     }
 }
+pub proof fn lemma_child_rev_step<F: DeclVisitor>(v: F::S, ks: Seq<ScopeOrDeclId>, k: int)
+    requires 0 < k <= ks.len()
+    ensures run::<F>(v, decls_rev(ks, k)) == (
+        if ks[k - 1] is Decl { if F::stops(v, ks[k - 1]) { (F::step(v, ks[k - 1]), true) } else { run::<F>(F::step(v, ks[k - 1]), decls_rev(ks, k - 1)) } }
+        else { run::<F>(v, decls_rev(ks, k - 1)) })
+{
+    if ks[k - 1] is Decl {
+        lemma_run_concat::<F>(v, seq![ks[k - 1]], decls_rev(ks, k - 1));
+        lemma_run_one::<F>(v, ks[k - 1]);
+    }
+}
 pub proof fn lemma_walk_step<F: DeclVisitor>(v: F::S, ss: Seq<LuaScope>, ks: Seq<ScopeOrDeclId>, i: int)
     requires 0 <= i < ks.len()
     ensures
@@ -210,9 +238,12 @@ pub proof fn lemma_visit_unfold(ss: Seq<LuaScope>, i: int, p: int, entry: bool)
             == (if first_scope(ss, i) >= 0 { m_visit(ss, first_scope(ss, i), p, true) } else { m_up(ss, i, p) }),
         entry && kd(ss, i) == LuaScopeKind::ForRange ==> m_visit(ss, i, p, entry) == m_up(ss, i, p),
         !entry && kd(ss, i) == LuaScopeKind::Repeat ==> m_visit(ss, i, p, entry)
-            == (if first_scope(ss, i) >= 0 { m_search(ss, first_scope(ss, i), p) } else { Seq::<ScopeOrDeclId>::empty() }) + m_search(ss, i, p) + m_up(ss, i, p),
-        (kd(ss, i) != LuaScopeKind::LocalOrAssignStat && kd(ss, i) != LuaScopeKind::Repeat && (!entry || kd(ss, i) != LuaScopeKind::ForRange))
+            == (if first_scope(ss, i) >= 0 { m_search(ss, first_scope(ss, i), p) } else { Seq::<ScopeOrDeclId>::empty() }) + lsearch(ss, i, p) + m_up(ss, i, p),
+        (entry && kd(ss, i) != LuaScopeKind::LocalOrAssignStat && kd(ss, i) != LuaScopeKind::Repeat && kd(ss, i) != LuaScopeKind::ForRange)
             ==> m_visit(ss, i, p, entry) == m_search(ss, i, p) + m_up(ss, i, p),
+        (!entry && kd(ss, i) != LuaScopeKind::LocalOrAssignStat && kd(ss, i) != LuaScopeKind::Repeat)
+            ==> m_visit(ss, i, p, entry) == lsearch(ss, i, p) + m_up(ss, i, p),
+        kd(ss, i) != LuaScopeKind::ForRange ==> lsearch(ss, i, p) == m_search(ss, i, p),
 {}
 /// the rposition loop found nothing
 pub proof fn lemma_cut_none(ss: Seq<LuaScope>, ks: Seq<ScopeOrDeclId>, p: int, k: int)
@@ -337,10 +368,6 @@ pub open spec fn tree_wf(ss: Seq<LuaScope>) -> bool {
 }
 
 // ===== the specification of C13: which declaration is visible where ======================================================================
-/// p is inside the BODY of scope s: its last child, a scope (function body / loop body block)
-pub open spec fn in_body(ss: Seq<LuaScope>, s: int, p: int) -> bool {
-    kids(ss, s).len() > 0 && (kids(ss, s).last() matches ScopeOrDeclId::Scope(sid) && rng(ss, sid.id as int, p))
-}
 pub open spec fn in_some_child(ss: Seq<LuaScope>, s: int, p: int) -> bool {
     exists|k: int| 0 <= k < kids(ss, s).len() && (#[trigger] kids(ss, s)[k] matches ScopeOrDeclId::Scope(sid) && rng(ss, sid.id as int, p))
 }
@@ -354,8 +381,11 @@ pub open spec fn ext_inside(ss: Seq<LuaScope>, b: int, p: int) -> bool {
 pub open spec fn region(ss: Seq<LuaScope>, s: int, d: LuaDeclId, p: int, lua: bool) -> bool {
     match kd(ss, s) {
         // (iv) loop variables, parameters, implicit self: visible in the body only, not in the header expressions
-        LuaScopeKind::Normal => (if lua { in_body(ss, s, p) } else { inside(ss, s, p) }) && pos_of(d) < p,
-        LuaScopeKind::ForRange => (if lua { in_body(ss, s, p) } else { in_some_child(ss, s, p) }) && pos_of(d) < p,
+        // (a Normal scope that holds declarations is a closure or - today's builder, !enc_for() - a numeric for; once the builder gives the
+        // numeric for the kind ForRange, enc_for(), only closures are left: parameters are visible in the whole function behind their name,
+        // the parameter list holds no expressions)
+        LuaScopeKind::Normal => (if lua && !enc_for() { in_body(ss, s, p) } else { inside(ss, s, p) }) && pos_of(d) < p,
+        LuaScopeKind::ForRange => (if lua || hdr_trav() { in_body(ss, s, p) } else { in_some_child(ss, s, p) }) && pos_of(d) < p,
         LuaScopeKind::Repeat => false,
         // (ii) `local x = x`: the names of a local / assignment statement are visible after the statement (to the end of the enclosing block,
         // (v) and in the `until` condition if that block is a repeat body), not inside the statement itself
@@ -371,5 +401,5 @@ pub open spec fn visible(ss: Seq<LuaScope>, d: LuaDeclId, p: int, lua: bool) -> 
 /// (header expressions of a numeric / generic for, closures inside them; parameter lists, where no name can be used)
 pub open spec fn in_header(ss: Seq<LuaScope>, p: int) -> bool {
     exists|s: int, k: int| 0 <= s < ss.len() && 0 <= k < kids(ss, s).len() && #[trigger] kids(ss, s)[k] is Decl
-        && (kd(ss, s) == LuaScopeKind::Normal || kd(ss, s) == LuaScopeKind::ForRange) && inside(ss, s, p) && !in_body(ss, s, p)
+        && ((kd(ss, s) == LuaScopeKind::Normal && !enc_for()) || (kd(ss, s) == LuaScopeKind::ForRange && !hdr_trav())) && inside(ss, s, p) && !in_body(ss, s, p)
 }
